@@ -1,4 +1,5 @@
 import CDVProofs.ParseOffsets
+import CDVProofs.DecodeLines
 import CDVProofs.Props.C13
 /-! # C02 — decoded instructions, operands, jumps and lines match CPython's own reading
 
@@ -50,6 +51,75 @@ theorem C02_jump_blocks (v : Ver) (T : OpTable) (fv : List PStr) (code : List Na
 theorem C02_flatten (ois : List (Nat × Instr)) (blocks : List (List Instr)) (h : buildBlocks ois = .ok blocks) :
     blocks.flatten = ois.map (fun p => retarget (targetsOf ois) p.2) :=
   (CDV.Props.C13.C13_partition ois blocks h).2
+
+/-- the line mapping `to_code_data` hands to `bytes_to_blocks`: the decoded table, made absolute with `co_firstlineno` -/
+def shifted (lm : LT.LMap) (fln : Int) : LT.LMap := { lm with lines := lm.lines.map fun p => (p.1, p.2.map (· + fln)) }
+
+/-- **Each instruction's `line_number` is the line CPython's line table assigns to its first code unit — 3.10.**
+    For every `co_linetable` of in-range rows with even address deltas and every bytecode: the decoded mapping exists,
+    and every decoded instruction carries `Spec.lineOf` (= `co_lines()` / `PyCode_Addr2Line` + `co_firstlineno`) of its
+    first offset, `none` exactly where CPython reports no line. -/
+theorem C02_lines_310 (T : OpTable) (fv : List PStr) (code table : List Nat) (fln : Int) (raws : List RawI) (st st' : DecSt)
+    (ois : List (Nat × Instr))
+    (heven : table.length % 2 = 0) (hbytes : ∀ x ∈ table, x < 256)
+    (h255 : ∀ x ∈ LT.bytesToItems table, x.bc ≠ 255) (hbc : ∀ x ∈ LT.bytesToItems table, x.bc % 2 = 0)
+    (hp : parseBytes code = .ok raws) :
+    ∃ lm, LT.toLineMapping true table code.length = .ok lm ∧
+      (st.lm = shifted lm fln → decodeInstrs .v310 T fv st raws = .ok (st', ois) →
+        ∀ (j : Nat) (r : RawI), raws[j]? = some r → ∃ ins, ois[j]? = some (r.first, ins) ∧
+          ins.line = Spec.lineOf .v310 table fln r.first) := by
+  obtain ⟨lm, hlm, _, hall⟩ := LT.decoded_lines_310 table code.length heven hbytes h255 hbc
+  refine ⟨lm, hlm, ?_⟩
+  intro hst hd j r hj
+  obtain ⟨ins, h1, h2⟩ := decodeInstrs_lines .v310 T fv raws st st' ois (parseBytes_chained code raws hp) hd j r hj
+  refine ⟨ins, h1, ?_⟩
+  have hb := parseGo_bounds EXTENDED_ARG code.length code rfl 0 0 0 raws (by omega) rfl hp r (List.mem_of_getElem? hj)
+  rw [hst] at h2
+  simp only [shifted] at h2
+  rw [assoc?_map_val (fun l : Option Int => l.map (· + fln))] at h2
+  cases ha : assoc? r.first lm.lines with
+  | none => simp [ha] at h2
+  | some l0 =>
+    simp only [ha, Option.map_some, Option.some.injEq] at h2
+    have := (hall r.first hb.1).1 l0 ha
+    simp only [Spec.lineOf, Ver.is310, if_true, this]
+    exact h2.symm
+
+/-- **… and for `co_lnotab` (3.7-3.9).** -/
+theorem C02_lines_lnotab (v : Ver) (hv : v.is310 = false) (T : OpTable) (fv : List PStr) (code table : List Nat) (fln : Int) (raws : List RawI)
+    (st st' : DecSt) (ois : List (Nat × Instr))
+    (heven : table.length % 2 = 0) (hbytes : ∀ x ∈ table, x < 256) (hbc : ∀ x ∈ LT.bytesToItems table, x.bc % 2 = 0)
+    (hp : parseBytes code = .ok raws) :
+    ∃ lm, LT.toLineMapping false table code.length = .ok lm ∧
+      (st.lm = shifted lm fln → decodeInstrs v T fv st raws = .ok (st', ois) →
+        ∀ (j : Nat) (r : RawI), raws[j]? = some r → ∃ ins, ois[j]? = some (r.first, ins) ∧
+          ins.line = Spec.lineOf v table fln r.first) := by
+  obtain ⟨lm, hlm, hall⟩ := LT.decoded_lines_old table code.length heven hbytes hbc
+  refine ⟨lm, hlm, ?_⟩
+  intro hst hd j r hj
+  obtain ⟨ins, h1, h2⟩ := decodeInstrs_lines v T fv raws st st' ois (parseBytes_chained code raws hp) hd j r hj
+  refine ⟨ins, h1, ?_⟩
+  have hb := parseGo_bounds EXTENDED_ARG code.length code rfl 0 0 0 raws (by omega) rfl hp r (List.mem_of_getElem? hj)
+  have hch := parseBytes_chained code raws hp
+  have hfn : r.first < r.next := by
+    have : ∀ (l : List RawI), Chained l → ∀ x ∈ l, x.first < x.next := by
+      intro l
+      induction l with
+      | nil => intro _ x hx; simp at hx
+      | cons y ys ih =>
+        intro hc x hx
+        simp only [Chained] at hc
+        rcases List.mem_cons.mp hx with rfl | hx
+        · exact hc.1
+        · exact ih hc.2.2 x hx
+    exact this raws hch r (List.mem_of_getElem? hj)
+  rw [hst] at h2
+  simp only [shifted] at h2
+  rw [assoc?_map_val (fun l : Option Int => l.map (· + fln)), hall r.first hb.1 (by omega)] at h2
+  simp only [Option.map_some, Option.some.injEq] at h2
+  simp only [Spec.lineOf, hv, Bool.false_eq_true, if_false]
+  rw [← h2]
+  simp [Int.add_comm]
 
 /-- non-vacuity: `EXTENDED_ARG 1; JUMP_ABSOLUTE 4` is one instruction with operand 260, first offset 0 -/
 example : parseBytes [144, 1, 113, 4] = .ok [⟨113, 260, 2, 0, 4⟩] := by rfl
